@@ -51,6 +51,47 @@ type facts struct {
 	LenCtors       int              `json:"len_ctors"`
 	KnownNums      []int            `json:"known_nums"`
 	Consts         map[string]int   `json:"consts"`
+	Accessors      []factsAccessor  `json:"accessors"`
+}
+
+// factsAccessor: one accessor method of *File and the file-type values for which it answers
+// without error on NewFile(t).
+type factsAccessor struct {
+	Name  string `json:"name"`
+	Types []int  `json:"types"`
+}
+
+// fileAccessors lists the methods of *File of the form func() (*XxxFile, error), by name.
+func fileAccessors() []reflect.Method {
+	var ms []reflect.Method
+	t := reflect.TypeOf(&fit.File{})
+	errT := reflect.TypeOf((*error)(nil)).Elem()
+	for i := 0; i < t.NumMethod(); i++ {
+		m := t.Method(i)
+		ft := m.Type
+		if ft.NumIn() == 1 && ft.NumOut() == 2 && ft.Out(1) == errT && ft.Out(0).Kind() == reflect.Ptr &&
+			strings.HasSuffix(ft.Out(0).Elem().Name(), "File") {
+			ms = append(ms, m)
+		}
+	}
+	return ms
+}
+
+// accessorAnswers: one character per accessor: c = container, n = nil without error, e = error.
+func accessorAnswers(f *fit.File) string {
+	var b strings.Builder
+	for _, m := range fileAccessors() {
+		out := m.Func.Call([]reflect.Value{reflect.ValueOf(f)})
+		switch {
+		case !out[1].IsNil():
+			b.WriteByte('e')
+		case out[0].IsNil():
+			b.WriteByte('n')
+		default:
+			b.WriteByte('c')
+		}
+	}
+	return b.String()
 }
 
 func collectFacts() (*facts, error) {
@@ -143,6 +184,23 @@ func collectFacts() (*facts, error) {
 		f.FileTypes = append(f.FileTypes, fmt.Sprintf("c%d", idx))
 	}
 
+	for _, m := range fileAccessors() {
+		fa := factsAccessor{Name: m.Name}
+		for t := 0; t < 256; t++ {
+			file, err := fit.NewFile(fit.FileType(t), fit.NewHeader(fit.V20, true))
+			if err != nil {
+				// accessors only look at FileId.Type: probe with a bare File too
+				file = &fit.File{}
+				file.FileId.Type = fit.FileType(t)
+			}
+			out := m.Func.Call([]reflect.Value{reflect.ValueOf(file)})
+			if out[1].IsNil() {
+				fa.Types = append(fa.Types, t)
+			}
+		}
+		f.Accessors = append(f.Accessors, fa)
+	}
+
 	c := f.Consts
 	c["mnFileId"] = int(fit.MesgNumFileId)
 	c["mnFileCreator"] = int(fit.MesgNumFileCreator)
@@ -223,7 +281,19 @@ func renderProfileLean(f *facts) string {
 		}
 	}
 	b.WriteString("]\n\n")
-	fmt.Fprintf(&b, "def profile : Profile := {\n  msgs := [%s],\n  containers := containers, fileTypes := fileTypes, profileVersion := %d }\n\n",
+	b.WriteString("/-- per accessor method of *File (by name): the file-type values it answers for -/\ndef accessors : List (String × List Nat) := [")
+	for i, a := range f.Accessors {
+		if i > 0 {
+			b.WriteString(", ")
+		}
+		var ts []string
+		for _, t := range a.Types {
+			ts = append(ts, fmt.Sprint(t))
+		}
+		fmt.Fprintf(&b, "(%q, [%s])", a.Name, strings.Join(ts, ", "))
+	}
+	b.WriteString("]\n\n")
+	fmt.Fprintf(&b, "def profile : Profile := {\n  msgs := [%s],\n  containers := containers, fileTypes := fileTypes, accessors := accessors, profileVersion := %d }\n\n",
 		strings.Join(names, ", "), f.ProfileVersion)
 	fmt.Fprintf(&b, "def lenFields : Nat := %d\ndef lenTypes : Nat := %d\ndef lenCtors : Nat := %d\n", f.LenFields, f.LenTypes, f.LenCtors)
 	var kn []string
